@@ -365,3 +365,71 @@ def table_store_obligations(prop, module="ford.sourceform", replay=None):
     if len(out) < 5:
         out.append(OR(id=f"{prop}.S.casefold.tables.anchor", status=UNKNOWN, kind="S", target=module, detail=f"expected the stores into the name tables, found {len(out)}"))
     return out
+
+
+def flow_obligations(prop, module="ford.sourceform", replay=None):
+    """keyword tests on a *local name* (`attribute in ["public", "private"]`, `attr == "deferred"`): the name's textually last binding before the test decides.  Followed back through
+    assignments and `for` targets: a case fold on the way -> folded; text captured by a (case-insensitive) pattern reached without one -> the test sees the spelling of the
+    source.  Complements `obligations` (which looks at direct reads of captures): generated for every such comparison in functions that handle a match object."""
+    _, tree = loader.module_source(module)
+    out = []
+    for fn in [x for x in ast.walk(tree) if isinstance(x, (ast.FunctionDef, ast.AsyncFunctionDef))]:
+        M = _match_names(fn)
+        if not M:
+            continue
+        binds = []      # (line, name, expression that gives the value, is_loop)
+        for n in ast.walk(fn):
+            if isinstance(n, ast.Assign):
+                for t in n.targets:
+                    if isinstance(t, ast.Name):
+                        binds.append((n.lineno, t.id, n.value))
+            elif isinstance(n, ast.NamedExpr) and isinstance(n.target, ast.Name):
+                binds.append((n.lineno, n.target.id, n.value))
+            elif isinstance(n, (ast.For, ast.comprehension)) and isinstance(n.target, ast.Name):
+                binds.append((getattr(n, "lineno", n.iter.lineno), n.target.id, n.iter))
+
+        def origin(name, line, depth=0):
+            """'folded' | 'captured' | None"""
+            if depth > 6:
+                return None
+            prev = [b for b in binds if b[1] == name and b[0] < line] or [b for b in binds if b[1] == name and b[0] == line]
+            if not prev:
+                return None
+            ln, _, val = max(prev, key=lambda b: b[0])
+            if any(_is_fold_call(x) for x in ast.walk(val)):
+                return "folded"
+            if any(_is_capture(x, M, set()) for x in ast.walk(val)):
+                return "captured"
+            res = None
+            for x in ast.walk(val):
+                if isinstance(x, ast.Name) and isinstance(x.ctx, ast.Load) and x.id != "self":
+                    o = origin(x.id, ln if x.id != name else ln - 0.5, depth + 1) if x.id != name else origin(name, ln, depth + 1) if any(b[1] == name and b[0] < ln for b in binds) else None
+                    if o == "captured":
+                        return "captured"
+                    res = res or o
+            return res
+        k = 0
+        for c in ast.walk(fn):
+            if not (isinstance(c, ast.Compare) and len(c.ops) == 1 and isinstance(c.ops[0], (ast.Eq, ast.NotEq, ast.In, ast.NotIn))):
+                continue
+            ops = [c.left] + list(c.comparators)
+            if not any(_lower_literal(o) for o in ops):
+                continue
+            names = [o for o in ops if isinstance(o, ast.Name)]
+            if len(names) != 1:
+                continue
+            o = origin(names[0].id, c.lineno + 0.5)
+            if o is None:
+                continue
+            r = OR(id=f"{prop}.S.casefold.flow.{fn.name}.site{k}", status=PROVED if o == "folded" else REFUTED, kind="S", role="post", backend="ast", target=f"{module}.{fn.name}",
+                   desc=f"`{ast.unparse(c)[:80]}` (line {c.lineno}): the last binding of `{names[0].id}` before the test goes back to captured text through a case fold")
+            if o != "folded":
+                r.witness = {"comparison": ast.unparse(c), "line": c.lineno, "name": names[0].id}
+                r.detail = f"`{names[0].id}` holds text of the source as written: an upper-case keyword takes the other branch"
+                if replay:
+                    r.replay = replay()
+            out.append(r)
+            k += 1
+    if not out:
+        out.append(OR(id=f"{prop}.S.casefold.flow.anchor", status=UNKNOWN, kind="S", target=module, detail="no keyword test on a local name found in the match-handling functions"))
+    return out
